@@ -211,6 +211,9 @@ class MifareUltralightC(tt2.Type2Tag):
         log.debug("authenticate with key %s", hexlify(key).decode())
 
         rsp = self.transceive(b"\x1A\x00")
+        if len(rsp) != 9 or rsp[0] != 0xAF:
+            log.debug("unexpected response to authenticate part 1")
+            return False
         m1 = bytes(rsp[1:9])
         iv = b"\x00\x00\x00\x00\x00\x00\x00\x00"
         rb = triple_des(key, CBC, iv).decrypt(m1)
@@ -235,6 +238,9 @@ class MifareUltralightC(tt2.Type2Tag):
         except tt2.Type2TagCommandError:
             return False
 
+        if len(rsp) != 9:
+            log.debug("unexpected response to authenticate part 2")
+            return False
         m3 = bytes(rsp[1:9])
         iv = m2[8:16]
         log.debug("received confirmation")
